@@ -86,8 +86,8 @@ func main() {
 			runMatchCase(o, k, ctxs, envs, sampledTrees(r, mu, treesPerCase))
 			o.Count("cases:B-match-sampled")
 		case k < nA+nB+nC:
-			fixed := k - (nA + nB) // the first six cells of the block are fixed: the invocation stack limit, the entry hash deeper in the chain
-			if fixed > 5 {
+			fixed := k - (nA + nB) // the first seven cells of the block are fixed: the invocation stack limit, the entry hash deeper in the chain, the depth sweep
+			if fixed > 6 {
 				fixed = -1
 			}
 			runDirectCase(o, k, r, du, fixed)
@@ -136,7 +136,7 @@ func main() {
 					os.Exit(3)
 				}
 			}
-			runChainCase(o, k, r, ch)
+			runChainCase(o, k, r, ch, k-(nA+nB+nC+nD))
 			o.Count("cases:E-chain")
 		}
 	}
